@@ -178,6 +178,9 @@ pub fn nested(ctx: &mut Ctx) {
         sweep_kind::<Bdd>(ctx, &mut rng, scripts, 1);
         sweep_kind::<Bcdd>(ctx, &mut rng, scripts, 1);
         sweep_kind::<Zbdd>(ctx, &mut rng, scripts, 1);
+        // with worker threads as well: the calling thread is bound to the outer manager, the workers are not
+        sweep_kind::<Bdd>(ctx, &mut rng, scripts.div_ceil(2), 4);
+        sweep_kind::<Bcdd>(ctx, &mut rng, scripts.div_ceil(2), 4);
     });
     ctx.count("nested_sweeps", 3 * scripts as u64);
 }
